@@ -900,6 +900,9 @@ func checkErrChainPreserved(c *Ctx, rule string) {
 						inner = ci.X
 					}
 					if !isErr(inner.Type()) {
+						if at := errorTextSource(inner, 0); at != nil {
+							return false, fmt.Sprintf("fmt.Errorf at %s is built from the text of another error (%s at %s) and not from the error", p.InstrPos(x), at.String(), p.InstrPos(at))
+						}
 						continue
 					}
 					vb := ""
@@ -963,6 +966,52 @@ func checkErrChainPreserved(c *Ctx, rule string) {
 		}
 	}
 	c.Floor(rule, "stores to Result.Err", n, 3)
+}
+
+// errorTextSource: the call of an error's Error() method that the (string) value v is computed from, if any —
+// through conversions, concatenation, and calls that take it as an operand (strings.ToLower, Sprintf, …).
+func errorTextSource(v ssa.Value, depth int) *ssa.Call {
+	if v == nil || depth > 5 {
+		return nil
+	}
+	errIface := types.Universe.Lookup("error").Type().Underlying().(*types.Interface)
+	switch x := v.(type) {
+	case *ssa.MakeInterface:
+		return errorTextSource(x.X, depth+1)
+	case *ssa.ChangeType:
+		return errorTextSource(x.X, depth+1)
+	case *ssa.Convert:
+		return errorTextSource(x.X, depth+1)
+	case *ssa.BinOp:
+		if at := errorTextSource(x.X, depth+1); at != nil {
+			return at
+		}
+		return errorTextSource(x.Y, depth+1)
+	case *ssa.Phi:
+		for _, e := range x.Edges {
+			if at := errorTextSource(e, depth+1); at != nil {
+				return at
+			}
+		}
+	case *ssa.Call:
+		if x.Call.IsInvoke() {
+			if x.Call.Method.Name() == "Error" && types.Implements(x.Call.Value.Type(), errIface) {
+				return x
+			}
+			return nil
+		}
+		if g := x.Call.StaticCallee(); g != nil && g.Name() == "Error" && g.Signature.Recv() != nil && types.Implements(g.Signature.Recv().Type(), errIface) {
+			return x
+		}
+		for _, a := range x.Call.Args {
+			if b, ok := a.Type().Underlying().(*types.Basic); ok && b.Info()&types.IsString != 0 {
+				if at := errorTextSource(a, depth+1); at != nil {
+					return at
+				}
+			}
+		}
+	}
+	return nil
 }
 
 // errorfElems: the leading variadic operands of a fmt.Errorf call that are known — a literal list, or the literal
